@@ -4,6 +4,8 @@
 //	-mode sync : "sync" -> pkg/verif/vsync (as sync), "sync/atomic" -> pkg/verif/vatomic (as atomic), go f(x) -> vsched.Go
 //	-mode fs   : "os" -> pkg/verif/vos (as os), "golang.org/x/sys/unix" -> pkg/verif/vunix (as unix)
 //	-mode sync+fs : both
+//	-mode fsgo : go f(x) -> vfsgo.VerifGo(func() { f(x) }) with vfsgo = pkg/verif/vos (deterministic, harness-controlled
+//	             execution of background file-system work while an I/O log is being recorded; plain goroutine otherwise)
 package main
 
 import (
@@ -19,6 +21,9 @@ import (
 )
 
 const base = "github.com/apache/skywalking-banyandb/pkg/verif/"
+
+// package, import alias and function that replace a go statement (default: the controlled scheduler).
+var goPkg, goAlias, goFn = base + "sched", "vsched", "Go"
 
 func main() {
 	mode := flag.String("mode", "sync", "")
@@ -41,6 +46,8 @@ func main() {
 			repl["os"] = [2]string{"os", base + "vos"}
 			repl["golang.org/x/sys/unix"] = [2]string{"unix", base + "vunix"}
 		case "nogo":
+		case "fsgo":
+			goPkg, goAlias, goFn = base+"vos", "vfsgo", "VerifGo"
 		default:
 			fmt.Fprintln(os.Stderr, "rewrite: unknown mode", m)
 			os.Exit(1)
@@ -58,7 +65,7 @@ func main() {
 		}
 	}
 	usedGo := false
-	if strings.Contains(*mode, "sync") && !strings.Contains(*mode, "nogo") {
+	if (strings.Contains(*mode, "sync") || strings.Contains(*mode, "fsgo")) && !strings.Contains(*mode, "nogo") {
 		ast.Inspect(f, func(n ast.Node) bool {
 			blk, ok := n.(*ast.BlockStmt)
 			if ok {
@@ -74,7 +81,7 @@ func main() {
 		})
 	}
 	if usedGo {
-		spec := &ast.ImportSpec{Name: ast.NewIdent("vsched"), Path: &ast.BasicLit{Kind: token.STRING, Value: strconv.Quote(base + "sched")}}
+		spec := &ast.ImportSpec{Name: ast.NewIdent(goAlias), Path: &ast.BasicLit{Kind: token.STRING, Value: strconv.Quote(goPkg)}}
 		added := false
 		for _, d := range f.Decls {
 			if gd, ok := d.(*ast.GenDecl); ok && gd.Tok == token.IMPORT {
@@ -130,7 +137,7 @@ func rewriteList(list []ast.Stmt, used *bool) {
 			call = &ast.CallExpr{Fun: call.Fun, Args: newArgs}
 		}
 		goCall := &ast.ExprStmt{X: &ast.CallExpr{
-			Fun: &ast.SelectorExpr{X: ast.NewIdent("vsched"), Sel: ast.NewIdent("Go")},
+			Fun: &ast.SelectorExpr{X: ast.NewIdent(goAlias), Sel: ast.NewIdent(goFn)},
 			Args: []ast.Expr{&ast.FuncLit{
 				Type: &ast.FuncType{Params: &ast.FieldList{}},
 				Body: &ast.BlockStmt{List: []ast.Stmt{&ast.ExprStmt{X: call}}},
